@@ -30,6 +30,23 @@ PRE = r'''
      (q)[0]=='%' ? g_seg_n == 0 : (g_seg_n == 1 && g_seg[0] == (unsigned char)(q)[0]))
 size_t g_base, g_next; bool g_next_set;
 bool g_os_good, g_os_buf, g_os_failbit;     /* std::ostream state for the ostream overload */
+/* ---- read-only std::string API (R8), for fast paths a maintainer may add in front of the loops */
+#define STR_NPOS ((size_t)-1)
+#define INSET(c, set) ((set)[0] && ((c) == (set)[0] || ((set)[1] && ((c) == (set)[1] || ((set)[2] && ((c) == (set)[2] || ((set)[3] && ((c) == (set)[3] || ((set)[4] && ((c) == (set)[4] || ((set)[5] && (c) == (set)[5])))))))))))
+/* s.find_first_of("set"): index of the first character that is in the set, or npos -- then no character (in particular the one at the ghost index) is in the set */
+static size_t str_find_first_of(char const *p, size_t n, char const *set)
+{
+  __CPROVER_assert(!set[0] || !set[1] || !set[2] || !set[3] || !set[4] || !set[5] || !set[6], "find_first_of set within the modelled length");
+  size_t r;
+  __CPROVER_assume(r == STR_NPOS || (r < n && INSET(p[r], set)));
+  __CPROVER_assume(r != STR_NPOS || g_i >= n || !INSET(p[g_i], set));
+  return r;
+}
+/* `return s;` from a function returning std::string: the output IS the input (segment of index g_i = that byte) */
+static void snk_copy_input(char const *p, size_t n)
+{
+  snk_len = n; g_sum = n; g_seg_on = 0; g_seen = g_i < n; g_seg_n = g_seen ? 1 : 0; if(g_seen) g_seg[0] = (unsigned char)p[g_i];
+}
 static bool os_rdbuf(void) { return g_os_buf; }
 static bool os_good(void) { return g_os_good; }
 static void os_setfail(void) { g_os_failbit = 1; }
@@ -43,7 +60,9 @@ functions = [
     # ---------------- escape(std::string)
     dict(cname='util_escape_str', file=U, locate=lit('std::string escape(std::string const &s)'), sig='void util_escape_str(char const *s_p, size_t s_n)',
          rewrites=[(r'std::string content;', 'snk_len = 0;', 1), (r's\.size\(\)', 's_n', 1), (r'content\.reserve\([^;]*\);', '', 1), (r's\[i\]', 's_p[i]', 1),
-                   (r'content\+=("[^"]*");', r'snk_lit(\1);', 5), (r'content\+=c;', 'snk_put(c);', 1), (r'return content;', 'return;', 1)],
+                   (r'content\+=("[^"]*");', r'snk_lit(\1);', 5), (r'content\+=c;', 'snk_put(c);', 1), (r'return content;', 'return;', 1),
+                   # optional R8 rules (fire 0 times on the current tree): read-only std::string calls of an early-exit fast path
+                   (r's\.find_first_of\(("(?:[^"\\]|\\.)*")\)', r'str_find_first_of(s_p, s_n, \1)', 0), (r'std::string::npos', 'STR_NPOS', 0), (r'return s;', '{ snk_copy_input(s_p, s_n); return; }', 0)],
          body_ghost=SEG_GHOST_RESET,
          loop_ghost={0: 'g_seg_on = (i == g_i); if(g_seg_on) g_seen = 1; g_sum += ESC_LEN(s_p[i]);'},
          loops={0: r'''
